@@ -337,6 +337,10 @@ func c14W4(b *core.B, r *core.Rng, rounds int) {
 			// is nested is its own affair, the executions that replay the block do not add up
 			loopInBlock = "<% let deep = fn(n) { if (n == 0) { return 0 } return 1 + deep(n - 1) } %>{<%= deep(200) %>}"
 		}
+		if round%16 == 7 {
+			// the stored block replays itself a few hundred levels deep (bounded by its data)
+			loopInBlock = "<% contentFor(\"deep\") { %><%= if (n > 0) { %><%= contentOf(\"deep\", {n: n - 1}) %><% } %>.<% } %>{<%= len(contentOf(\"deep\", {n: 400})) %>}"
+		}
 		if round%3 == 2 {
 			// the stored block has a loop of its own that a helper's block leaves with break
 			loopInBlock = "<%= for (i) in [1, 2, 3] { %><%= cap() { %><%= i %><% if (i == 2) { break } %>,<% } %><% } %>"
